@@ -144,7 +144,7 @@ impl Scenario for CallHistory {
         "gibbs_call_history"
     }
     fn runs(&self, tier: Tier) -> u64 {
-        tier.pick(6000, 400_000)
+        tier.pick(60_000, 400_000)
     }
     fn generate(&self, g: &mut Gen, _t: Tier, _i: u64) -> Value {
         let cs = crate::props::c07::special_seed(g, 4);
@@ -197,7 +197,7 @@ impl Scenario for Invariance {
         "gibbs_exact_invariance"
     }
     fn runs(&self, tier: Tier) -> u64 {
-        tier.pick(300, 20_000)
+        tier.pick(2000, 20_000)
     }
     fn generate(&self, g: &mut Gen, _t: Tier, _i: u64) -> Value {
         json!({"d": g.usize(1, 4), "gseed": g.u64()})
@@ -309,7 +309,7 @@ impl Scenario for SamplerHistory {
         "gibbs_sampler_run"
     }
     fn runs(&self, tier: Tier) -> u64 {
-        tier.pick(600, 40_000)
+        tier.pick(4000, 40_000)
     }
     fn generate(&self, g: &mut Gen, _t: Tier, _i: u64) -> Value {
         let nc = g.usize(1, 16);
@@ -426,7 +426,7 @@ impl Scenario for PanicFault {
         "gibbs_conditional_panics"
     }
     fn runs(&self, tier: Tier) -> u64 {
-        tier.pick(1500, 100_000)
+        tier.pick(15_000, 100_000)
     }
     fn generate(&self, g: &mut Gen, _t: Tier, _i: u64) -> Value {
         let d = g.usize(1, 16);
